@@ -109,6 +109,13 @@ def correspond(ctx):
     reported = set()
     for key, r in results.items():
         for phase, st, outside in r['ctx']:
+            if phase == 'aliasing':
+                if not any(f.signature == 'C20:aliasing' for f in c.failures):
+                    c.failures.append(Failure('correspondence',
+                                              'two definitions share a mutable object that each of them owns (mode, hashseed = %s): %s' % (key, st),
+                                              replay={'aliases': st, 'scenario': 'harness/impl/c20_builds.py phase 5c'},
+                                              found_input=True, signature='C20:aliasing', theorem='failed_build_no_residue'))
+                continue
             if phase == 'class-state':
                 c.failures.append(Failure('correspondence',
                                           'class-level mutable state of the synth modules changed during %s (mode, hashseed = %s): added %s removed %s'
@@ -249,7 +256,7 @@ def search(ctx, failures):
         for phase, st, outside in r['ctx']:
             if phase in ('writer-result', 'library-use-error'):
                 continue
-            if phase == 'class-state':
+            if phase in ('class-state', 'aliasing'):
                 continue
             if st != [True, True] or outside is not True:
                 base = phase.startswith('after-xfail-') and phase.split('-')[-1] in BASE_KINDS
